@@ -67,10 +67,22 @@ Definition f_of_small (s : bool) (q : Z) : f64 :=
   | _ => S754_zero s
   end.
 
-(* float64(int): round to nearest even; exact below 2^53 *)
+(* m*2^e with the trailing zero bits of m moved into the exponent (same value) *)
+Fixpoint strip (m : positive) (e : Z) : positive * Z :=
+  match m with xO p => strip p (e + 1) | _ => (m, e) end.
+
+(* the double nearest to (-1)^s * m * 2^e, ties to even: SpecFloat's binary_round
+   (= binary_normalize) on the stripped pair *)
+Definition f_of_dyadic (s : bool) (m : positive) (e : Z) : f64 :=
+  let '(m', e') := strip m e in binary_round prec emax s m' e'.
+
+(* float64(int): round to nearest even *)
 Definition of_Z (z : Z) : f64 :=
-  if Z.abs z <=? 9007199254740992 then f_of_small (z <? 0) (Z.abs z)
-  else binary_normalize prec emax z 0 false.
+  match z with
+  | Z0 => S754_zero false
+  | Zpos p => f_of_dyadic false p 0
+  | Zneg p => f_of_dyadic true p 0
+  end.
 
 (* big.Rat.Float64: the nearest double (ties to even) of n/d.  Scale so that the
    integer quotient has at least 56 bits, append a sticky bit, round once. *)
@@ -83,8 +95,10 @@ Definition of_Q (q : Q) : f64 :=
     let a := Z.abs n in
     let k := Z.max 0 (56 + Zdigits2 d - Zdigits2 a) in
     let '(qq, r) := Z.div_eucl (Z.shiftl a k) d in
-    let m := 2 * qq + (if r =? 0 then 0 else 1) in
-    binary_normalize prec emax (if n <? 0 then - m else m) (- k - 1) false
+    match 2 * qq + (if r =? 0 then 0 else 1) with
+    | Zpos m => f_of_dyadic (n <? 0) m (- k - 1)
+    | _ => S754_zero (n <? 0)
+    end
   end.
 
 (* exact value of a finite float, as a reduced rational (big.Rat.SetFloat64) *)
